@@ -4,6 +4,9 @@ Streams (model `Wpull.HttpWire` vs the real code in the wpull tree under test):
   decode   (shared with C08) lock-step co-simulation of Stream.read_response/read_body;
            for C04 the compared component is `notified` = concatenation of the
            notify_read data = what the recorder appends to the response block
+  appcrawl the WHOLE application (harness/appsim.py run_crawl: argv -> Builder -> Application.run)
+           crawling recursively with robots.txt handling and --warc-file: the WARC vs EVERY
+           exchange the servers saw                                               oracle only
   interleave 2-3 sessions of one Client open at the same time on one recorder, interleaved at
            every event boundary, on one and on several connections                oracle only
   redirect the recorder behind the REAL WebClient/WebSession following redirects whose Location
@@ -410,6 +413,89 @@ def fixed_tworuns():
     return out
 
 
+# ------------------------------------------------------------------ appcrawl: the whole application
+def appcrawl_cases(rng, n):
+    import appsim
+    cases = []
+    robots_variants = [('allow', lambda: appsim.Page(200, b'User-agent: *\nDisallow: /private\n', 'text/plain')),
+                       ('missing', lambda: appsim.Page(404, b'no robots here', 'text/plain')),
+                       ('redirect', lambda: appsim.Page(301, b'moved', 'text/plain', location='/robots2.txt')),
+                       ('empty', lambda: appsim.Page(200, b'', 'text/plain'))]
+    for name, robots in robots_variants:
+        for extra in ([], ['--no-robots'], ['--no-http-keep-alive'], ['--warc-cdx']):
+            cases.append({'stream': 'appcrawl', 'robots': name, 'extra': extra, 'seed': len(cases), 'two_hosts': name == 'allow'})
+    for i in range(n):
+        cases.append({'stream': 'appcrawl', 'robots': rng.choice(robots_variants)[0], 'extra': rng.choice([[], [], ['--no-robots'], ['--page-requisites']]),
+                      'seed': 100 + i, 'two_hosts': rng.random() < 0.4})
+    return cases
+
+
+def stream_appcrawl(ctx, cases):
+    """Oracle only.  The WHOLE application (argv -> Builder -> Application.run, harness/appsim.py)
+    crawls a small site recursively with --warc-file: every exchange the servers saw - robots.txt
+    fetches and their redirect hops included - has exactly one request record (block == the request
+    the server received) and one response record (block == what the server sent) for its URL."""
+    import appsim
+    for case in cases:
+        robots = {'allow': appsim.Page(200, b'User-agent: *\nDisallow: /private\n', 'text/plain'),
+                  'missing': appsim.Page(404, b'no robots here', 'text/plain'),
+                  'redirect': appsim.Page(301, b'moved', 'text/plain', location='/robots2.txt'),
+                  'empty': appsim.Page(200, b'', 'text/plain')}[case['robots']]
+        other = 'http://b.test/x' if case['two_hosts'] else '/p2'
+        site = {'a.test': {'/': appsim.Page(200, appsim.html(links=['/p1', other, '/private/no', '/moved'])),
+                           '/p1': appsim.Page(200, appsim.html(links=['/'], title='p1')),
+                           '/p2': appsim.Page(200, b'plain text', 'text/plain'),
+                           '/moved': appsim.Page(302, b'', 'text/plain', location='/p1#frag'),
+                           '/private/no': appsim.Page(200, b'secret', 'text/plain'),
+                           '/robots.txt': robots,
+                           '/robots2.txt': appsim.Page(200, b'User-agent: *\nDisallow:\n', 'text/plain')},
+                'b.test': {'/x': appsim.Page(200, b'other host', 'text/plain'),
+                           '/robots.txt': appsim.Page(200, b'User-agent: *\nDisallow: /nothing\n', 'text/plain')}}
+        tmp = tempfile.mkdtemp(prefix='c04a-')
+        try:
+            extra = ['-r', '--warc-file', 'rec', '--no-warc-compression', '--no-warc-keep-log'] + list(case['extra']) + \
+                    (['--span-hosts'] if case['two_hosts'] else [])
+            res = appsim.run_crawl(['http://a.test/'], site, seed=case['seed'], extra=extra, workdir=tmp, jitter=False, max_steps=400000)
+            path = os.path.join(tmp, 'rec.warc')
+            ctx.case(('appcrawl', case['robots'], tuple(case['extra']), case['seed'], case['two_hosts']),
+                     tags=['appcrawl:robots=' + case['robots'], 'appcrawl:requests=%d' % min(len(res.requests), 12)] +
+                          (['appcrawl:no-robots'] if '--no-robots' in case['extra'] else []) + (['appcrawl:hung'] if res.hung else []))
+            if res.hung or res.error or not os.path.exists(path):
+                ctx.tag('appcrawl:unusable')
+                continue
+            try:
+                records = H.read_warc(path)
+            except H.WarcFormatError as err:
+                ctx.fail('record-length', 'WARCRecorder', case, str(err))
+                continue
+            wire_req, wire_resp = [], []
+            for r in res.requests:
+                uri = 'http://%s%s' % (r['host'], r['target'])
+                wire_req.append((uri, bytes(r['raw']) + b'\r\n\r\n'))
+                page = (site.get(r['host']) or {}).get(r['target']) or appsim.Page(404, b'not found', 'text/plain')
+                data = page.render()
+                if r['method'] == 'HEAD':
+                    data = data.split(b'\r\n\r\n', 1)[0] + b'\r\n\r\n'
+                wire_resp.append((uri, data))
+            rec_req = [(f.get('warc-target-uri'), b) for f, b in records if f.get('warc-type') == 'request']
+            rec_resp = [(f.get('warc-target-uri'), b) for f, b in records if f.get('warc-type') in ('response', 'revisit')]
+            for what, wire, rec in (('request', wire_req, rec_req), ('response', wire_resp, rec_resp)):
+                missing = [u for u, b in wire if (u, b) not in rec]
+                surplus = [u for u, b in rec if (u, b) not in wire]
+                if sorted(wire) != sorted(rec):
+                    unrecorded = [u for u in {u for u, b in wire} if u not in {u2 for u2, b2 in rec}]
+                    kind = 'exchange-not-recorded' if unrecorded else ('%s-block-not-wire' % what)
+                    ctx.fail(kind, 'application-wiring', case,
+                             'the servers saw %d exchanges, the WARC file has %d %s records; exchanges without a %s record holding their '
+                             'bytes: %r; %s records without such an exchange: %r'
+                             % (len(wire), len(rec), what, what, missing[:6], what, surplus[:6]))
+                    break
+        finally:
+            shutil.rmtree(tmp, ignore_errors=True)
+    if cases:
+        ctx.sample({'stream': 'appcrawl', 'cases': len(cases)})
+
+
 # ------------------------------------------------------------------ interleave: sessions open at the same time
 def interleave_cases(rng, n):
     bodies = [b'AAAAAAAAAAAAAAAAAAAAAAAA', b'bbbbbbbbbbbb', b'CCCCCCCCCCCCCCCCCCCCCCCCCCCCCCCC']
@@ -722,7 +808,9 @@ def stream_overlap(ctx, cases):
 
 def replay(ctx, case, kind=None, where=None):
     case = case.get('case', case)
-    if case.get('stream') == 'redirect':
+    if case.get('stream') == 'appcrawl':
+        stream_appcrawl(ctx, [case])
+    elif case.get('stream') == 'redirect':
         stream_redirect(ctx, [case])
     elif case.get('stream') == 'interleave':
         c = dict(case)
@@ -819,6 +907,7 @@ def run(ctx):
         app.append((exs, o, wiring))
     stream_warc(ctx, fixed_dedup_sequences() + seqs + app)
     stream_overlap(ctx, overlap_cases(ctx.subrng('overlap'), ctx.scale(60, 1500)))
+    stream_appcrawl(ctx, appcrawl_cases(ctx.subrng('appcrawl'), ctx.scale(8, 200)))
     stream_interleave(ctx, interleave_cases(ctx.subrng('interleave'), ctx.scale(60, 1500)))
     stream_redirect(ctx, redirect_cases(ctx.subrng('redirect'), ctx.scale(60, 1500)))
     stream_fault(ctx, fault_cases(ctx.subrng('fault'), ctx.scale(80, 2000)))
